@@ -189,6 +189,51 @@ def run_cases(rep, tier, seed, prop, impl, model):
     return kdis, ofail
 
 
+def run_abort_cases(rep, tier, seed):
+    """C05, directed: a non-tolerated failure in one line of a group while another line of the same group is in the
+    middle of long *tolerated* actions (which the prompter then aborts).  Whatever the aborted line reports, the
+    failure must be reported (exit status != 0) and no later group may start (`failure_stops`)."""
+    rng = SplitMix(seed + 505)
+    n = 3 if tier == "quick" else 16
+    cases = []
+    for i in range(n):
+        nslow = rng.range(3, 6)
+        slow_s = rng.pick([2, 3, 4])
+        tol = rng.pick(["?", "?", "?", ""])
+        story = rng.pick(["p+q s", "q+p s", "p+q .s", "q+p s."])
+        text = "\n".join(["role r",
+                          "  :fail " + playgen.action_cmd("fail", 0.01, 3),
+                          "  :slow " + playgen.action_cmd("slow", slow_s, 0),
+                          "  :mark " + playgen.action_cmd("mark", 0, 0),
+                          "end", "cast", "  a plays r", "  b plays r", "end", "script", "  tempo %dms" % rng.pick([100, 200, 500]),
+                          "  scene p entails for a: fail",
+                          "  scene q entails for b: " + "; ".join(["slow" + tol] * nslow),
+                          "  scene s entails for a: mark",
+                          "  storyline " + story, "end"]) + "\n"
+        cases.append(text)
+    results = e2e.run_many([e2e.Play(t, timeout=60) for t in cases], workers=8)
+    ofail = []
+    for text, r in zip(cases, results):
+        ledger = playgen.parse_ledger(r["ledger"].get("play.ledger", ""))
+        nfail = sum(1 for e in ledger if e["action"] == "fail")
+        nmark = sum(1 for e in ledger if e["action"] == "mark")
+        rep.case(("abort", text), nontrivial=True)
+        rep.count("abort-plays")
+        problems = []
+        if r["timed_out"]:
+            problems.append("timed out")
+        if nfail != 1:
+            problems.append("the failing action ran %d times" % nfail)
+        if r["rc"] == 0:
+            problems.append("exit status 0 although the non-tolerated action a.fail failed (another line of the group was aborted in a tolerated action)")
+        if nmark:
+            problems.append("the next group started (a.mark performed %d times) after a non-tolerated failure" % nmark)
+        if problems:
+            ofail.append({"config": text, "problems": problems, "rc": r["rc"], "stderr": (r["stderr"] or "")[-1200:],
+                          "tag": {"kind": "failure-lost-when-concurrent-line-aborted", "exit0": r["rc"] == 0}})
+    return ofail
+
+
 def run_prop(prop, tier, seed):
     rep = Report(prop, tier, seed, "proof")
     rep.assumptions = ["goroutines, exec and the kernel realise the abstract steps of the prompter model: observed on generated plays, not proved (partial)",
@@ -203,6 +248,8 @@ def run_prop(prop, tier, seed):
     impl, model = Impl(), Model()
     ok, info = standard_proof_step(rep, prop, thorough=(tier == "thorough"))
     kdis, ofail = run_cases(rep, tier, seed, prop, impl, model)
+    if prop == "C05":
+        ofail += run_abort_cases(rep, tier, seed)
     rep.obligation("K-%s: generated plays compile and the model accepts them" % prop, "K", not kdis, json.dumps(kdis[:2])[:1500])
     rep.obligation("O-%s: real binary — performed action set, exit status, ordering/barrier/tempo inequalities, recorded vs experienced times" % prop, "O", not ofail, json.dumps(ofail[:2])[:1800])
     if ofail:
